@@ -428,6 +428,8 @@ struct Worker {
     receiver: Receiver<Option<String>>,
     stopped: AtomicBool,
     stop_requested: AtomicBool,
+    wake_sender: Sender<()>,
+    wake_receiver: Receiver<()>,
     stats: WorkerStats,
 }
 
@@ -437,12 +439,15 @@ impl Worker {
         F: Fn(String) + Sync + Send + RefUnwindSafe + 'static,
     {
         let (tx, rx) = Self::get_channels(capacity);
+        let (wake_tx, wake_rx) = crossbeam_channel::bounded(1);
         Worker {
             task: Box::new(task),
             sender: tx,
             receiver: rx,
             stopped: AtomicBool::new(false),
             stop_requested: AtomicBool::new(false),
+            wake_sender: wake_tx,
+            wake_receiver: wake_rx,
             stats: WorkerStats::new(),
         }
     }
@@ -472,12 +477,19 @@ impl Worker {
                 break;
             }
 
-            match self.receiver.recv() {
-                Ok(Some(v)) => {
-                    self.stats.incr_drained();
-                    (self.task)(v);
-                }
-                _ => break,
+            // Also wait for the wake-up `.stop()` sends along with the stop request:
+            // the request may be flagged after the check above but before this thread
+            // is waiting for the next entry, and a poison pill can't be left behind in
+            // a full (or zero capacity) channel.
+            crossbeam_channel::select! {
+                recv(self.receiver) -> entry => match entry {
+                    Ok(Some(v)) => {
+                        self.stats.incr_drained();
+                        (self.task)(v);
+                    }
+                    _ => break,
+                },
+                recv(self.wake_receiver) -> _ => continue,
             }
         }
 
@@ -497,6 +509,10 @@ impl Worker {
             // already be waiting for the next entry without having seen the flag.
             self.stop_requested.store(true, Ordering::SeqCst);
             let _ = self.sender.try_send(None);
+            // Make sure a worker that is (about to start) waiting for the next entry
+            // looks at the flag again. The wake-up channel holds one message, if it is
+            // full a wake-up is already pending.
+            let _ = self.wake_sender.try_send(());
         }
     }
 
